@@ -6,6 +6,7 @@ import (
 	"testing"
 	"testing/synctest"
 
+	"github.com/ipfs/go-cid"
 	"github.com/ipni/go-libipni/dagsync"
 	"pgregory.net/rapid"
 
@@ -23,16 +24,22 @@ type mislabelCase struct {
 	Label   int // index into sameLen: the function named in the crafted CID
 	Seg     int64
 	Trusted bool
+	Trunc   int // > 0: the crafted CID names blake2b-256 (or blake2s-256) truncated to Trunc bytes and carries the digest of the family's native Trunc-byte member
+	Family  int // 0 blake2b, 1 blake2s
 }
 
 var sameLen = []hashFn{{"sha2-256", 0x12, -1}, {"sha3-256", 0x16, -1}, {"keccak-256", 0x1b, -1}, {"blake2b-256", 0xb220, -1}, {"dbl-sha2-256", 0x56, -1}}
 
 func TestC02_Mislabel(t *testing.T) {
 	pbt.Run(t, pbt.Config{Prop: "C02", Unit: "TestC02_Mislabel", TrackCurrent: true,
-		Rule: "chain of 1..4 honest ads hashed with one of five 256-bit functions, on top of it one ad whose PreviousID is a crafted CID: the digest of the previous ad under the chain's function, labelled with another of the five; the previous ad's bytes are served for it; segmented or not, TrustedStorage or not; oracle: the sync of the new head fails, latest-sync does not move, the crafted CID is not stored and not reported to the hook, the independent audit finds no stored block that does not hash to its CID. Non-trivial: always; distinct by case.",
+		Rule: "chain of 1..4 honest ads hashed with one of five 256-bit functions, on top of it one ad whose PreviousID is a crafted CID: the digest of the previous ad under the chain's function, labelled with another of the five, or (one case in four) the digest of the previous ad under the native 64..248-bit member of the blake2b family labelled as the family's 256-bit member truncated to that length; the previous ad's bytes are served for it; segmented or not, TrustedStorage or not; oracle: the sync of the new head fails, latest-sync does not move, the crafted CID is not stored and not reported to the hook, the independent audit finds no stored block that does not hash to its CID. Non-trivial: always; distinct by case.",
 	}, func(t *rapid.T) mislabelCase {
 		c := mislabelCase{N: rapid.IntRange(1, 4).Draw(t, "n"), Root: rapid.IntRange(0, len(sameLen)-1).Draw(t, "root"), Seg: rapid.SampledFrom([]int64{-1, 1, 2}).Draw(t, "seg"), Trusted: rapid.Bool().Draw(t, "trusted")}
 		c.Label = (c.Root + rapid.IntRange(1, len(sameLen)-1).Draw(t, "label")) % len(sameLen)
+		if rapid.IntRange(0, 3).Draw(t, "truncated") == 0 {
+			c.Trunc = rapid.SampledFrom([]int{8, 16, 20, 24, 28, 31}).Draw(t, "trunc")
+			c.Family = 0 // (the blake2s members other than blake2s-256 are not registered in this binary: no publisher could be asked for them)
+		}
 		return c
 	}, func(c mislabelCase) (res pbt.Result) {
 		res.NonTrivial = true
@@ -49,7 +56,20 @@ func TestC02_Mislabel(t *testing.T) {
 			p := w.AddPublisher(0, false, "")
 			p.SetHashFunc(sameLen[c.Root].Code, -1)
 			p.ExtendAds(c.N)
-			crafted := p.MislabelHead(sameLen[c.Label].Code)
+			labelName := sameLen[c.Label].Name
+			var crafted cid.Cid
+			if c.Trunc > 0 {
+				// blake2b-N is multihash code 0xb200 + N/8 (N bits), blake2s-N is 0xb240 + N/8; the 256-bit members are 0xb220 / 0xb260
+				base, name := uint64(0xb200), "blake2b"
+				if c.Family == 1 {
+					base, name = 0xb240, "blake2s"
+				}
+				labelName = fmt.Sprintf("%s-256 truncated to %d bytes (digest of %s-%d)", name, c.Trunc, name, 8*c.Trunc)
+				crafted = p.MislabelHeadAs(base+32, base+uint64(c.Trunc))
+				res.Classes = append(res.Classes, "truncated-family-member")
+			} else {
+				crafted = p.MislabelHead(sameLen[c.Label].Code)
+			}
 			s, err := world.NewSub(w, false, dagsync.SegmentDepthLimit(c.Seg))
 			if err != nil {
 				res.Fail = err.Error()
@@ -63,7 +83,7 @@ func TestC02_Mislabel(t *testing.T) {
 			got, err := s.S.SyncAdChain(context.Background(), p.Info())
 			w.Settle()
 			if bad := s.Audit(); len(bad) > 0 {
-				res.Fail = fmt.Sprintf("the store holds blocks that do not hash to their CID: %v (chain hashed with %s, crafted link labelled %s; sync returned %v, %v)", bad, sameLen[c.Root].Name, sameLen[c.Label].Name, got, err)
+				res.Fail = fmt.Sprintf("the store holds blocks that do not hash to their CID: %v (chain hashed with %s, crafted link labelled %s; sync returned %v, %v)", bad, sameLen[c.Root].Name, labelName, got, err)
 				return
 			}
 			if s.Has(crafted) {
@@ -77,7 +97,7 @@ func TestC02_Mislabel(t *testing.T) {
 				}
 			}
 			if err == nil {
-				res.Fail = fmt.Sprintf("the sync succeeded (returned %s) although the block served for the crafted CID does not hash to it under %s", got, sameLen[c.Label].Name)
+				res.Fail = fmt.Sprintf("the sync succeeded (returned %s) although the block served for the crafted CID does not hash to it under %s", got, labelName)
 				return
 			}
 			if l := s.Latest(p.ID); l.Defined() {
